@@ -12,16 +12,31 @@ import (
 type rng struct{ lo, hi uint64 }
 
 type facts struct {
-	parent  *facts
-	depth   int
-	r       map[int]rng // unsigned bounds by term id set at this level (already intersected with the ancestors')
-	terms   map[int]*term.Term
-	memo    map[int]rng
-	bm      map[int]int8
-	vals    map[int][]uint64 // exact finite value sets by term id (from equalities and disjunctions of equalities)
-	empty   bool             // some term's range became empty: the guard is unsatisfiable
-	check   int8             // 0 = not yet checked, 1 = consistent, 2 = inconsistent
-	conj    []*term.Term     // all conjuncts covered by this chain (sorted by id)
+	parent *facts
+	depth  int
+	r      map[int]rng // unsigned bounds by term id set at this level (already intersected with the ancestors')
+	terms  map[int]*term.Term
+	memo   map[int]rng
+	bm     map[int]int8
+	vals   map[int][]uint64 // exact finite value sets by term id (from equalities and disjunctions of equalities)
+	empty  bool             // some term's range became empty: the guard is unsatisfiable
+	check  int8             // 0 = not yet checked, 1 = consistent, 2 = inconsistent
+	conj   []*term.Term     // all conjuncts covered by this chain (sorted by id)
+	sb     map[int]sbound   // signed bounds by term id (combined along the chain)
+}
+
+type sbound struct {
+	lo, hi int64
+	w      int
+}
+
+func (f *facts) getS(id int) (sbound, bool) {
+	for x := f; x != nil; x = x.parent {
+		if s, ok := x.sb[id]; ok {
+			return s, true
+		}
+	}
+	return sbound{}, false
 }
 
 func (f *facts) getR(id int) (rng, bool) {
@@ -136,12 +151,7 @@ func newFacts(parent *facts, conj []*term.Term, all []*term.Term) *facts {
 		f.depth = parent.depth + 1
 		f.empty = parent.empty
 	}
-	type sb struct {
-		lo, hi int64
-		has    bool
-		w      int
-	}
-	sf := map[int]*sb{}
+	f.sb = map[int]sbound{}
 	tight := func(t *term.Term, lo, hi uint64) {
 		if t.Sort.K != term.KBV || t.W() > 64 {
 			return
@@ -166,11 +176,9 @@ func newFacts(parent *facts, conj []*term.Term, all []*term.Term) *facts {
 		if t.W() > 64 {
 			return
 		}
-		s := sf[t.ID]
-		if s == nil {
-			s = &sb{lo: -1 << 63, hi: 1<<63 - 1, w: t.W()}
-			sf[t.ID] = s
-			f.terms[t.ID] = t
+		s, ok := f.getS(t.ID)
+		if !ok {
+			s = sbound{lo: -1 << 63, hi: 1<<63 - 1, w: t.W()}
 		}
 		if lo > s.lo {
 			s.lo = lo
@@ -178,6 +186,8 @@ func newFacts(parent *facts, conj []*term.Term, all []*term.Term) *facts {
 		if hi < s.hi {
 			s.hi = hi
 		}
+		f.sb[t.ID] = s
+		f.terms[t.ID] = t
 	}
 	for _, c := range conj {
 		neg := false
@@ -326,7 +336,7 @@ func newFacts(parent *facts, conj []*term.Term, all []*term.Term) *facts {
 			}
 		}
 	}
-	for id, s := range sf {
+	for id, s := range f.sb {
 		if s.lo >= 0 && s.hi >= s.lo {
 			cur, ok := f.getR(id)
 			if !ok {
